@@ -128,7 +128,11 @@ func genBody(r *rand.Rand, depth, n int, titles []string) []gStmt {
 		lineCount++
 		switch k := r.Intn(10); {
 		case k < 3:
-			out = append(out, gStmt{kind: "line", text: fmt.Sprintf("Line %d says {$n} here", lineCount)})
+			if r.Intn(4) == 0 {
+				out = append(out, gStmt{kind: "line", text: fmt.Sprintf("Pair %d {$n} {$n}{$n} end", lineCount), want: fmt.Sprintf("Pair %d {} {}{} end", lineCount)})
+			} else {
+				out = append(out, gStmt{kind: "line", text: fmt.Sprintf("Line %d says {$n} here", lineCount)})
+			}
 		case k < 5 && depth > 0:
 			g := gStmt{kind: "option-group"}
 			for j := 0; j < 1+r.Intn(3); j++ {
@@ -156,7 +160,16 @@ func genBody(r *rand.Rand, depth, n int, titles []string) []gStmt {
 		case k < 7:
 			out = append(out, gStmt{kind: "set", name: "$n", expr: genExpr(r, 2, false)})
 		case k < 8:
-			out = append(out, gStmt{kind: "command", text: fmt.Sprintf("act %d fast {$n}", lineCount)})
+			switch r.Intn(4) {
+			case 0:
+				out = append(out, gStmt{kind: "command", text: fmt.Sprintf("act %d fast {$n}", lineCount)})
+			case 1:
+				out = append(out, gStmt{kind: "command", text: fmt.Sprintf("give %d coins {$n} now {$b} please", lineCount)})
+			case 2:
+				out = append(out, gStmt{kind: "command", text: "say {\"5\"} {\"true\"} {\"word\"} done"})
+			default:
+				out = append(out, gStmt{kind: "command", text: fmt.Sprintf("emit {$n} {$b} x%d", lineCount)})
+			}
 		case k < 9:
 			if r.Intn(3) == 0 {
 				out = append(out, gStmt{kind: "declare", name: fmt.Sprintf("$d%d", lineCount), expr: genExpr(r, 0, r.Intn(2) == 0)}) // the grammar allows a single value here
@@ -550,6 +563,9 @@ func matchStmts(gs []gStmt, ps []*Statement) string {
 				want = want[:k]
 			}
 			want = strings.ReplaceAll(want, "{$n}", "{}")
+			if g.want != "" && strings.Contains(g.text, "{$n}") && !strings.Contains(g.want, "{}") {
+				want = g.want
+			}
 			got, _ := lineText(p.LineStatement)
 			if p.LineStatement == nil || got != want {
 				return fmt.Sprintf("line %q parsed as %q", want, got)
@@ -671,9 +687,13 @@ func matchStmts(gs []gStmt, ps []*Statement) string {
 				switch {
 				case e == nil:
 					return "command " + g.text + ": element without expression"
-				case w == "{$n}":
-					if e.VariableID == nil || *e.VariableID != "n" {
-						return "command " + g.text + ": inline expression lost"
+				case w == "{$n}" || w == "{$b}":
+					if e.VariableID == nil || *e.VariableID != w[2:3] {
+						return "command " + g.text + ": inline expression " + w + " lost"
+					}
+				case strings.HasPrefix(w, "{\""):
+					if e.Value == nil || e.Value.String == nil || *e.Value.String != strings.Trim(w, "{}\"") {
+						return "command " + g.text + ": string literal expression " + w + " did not stay a string"
 					}
 				default:
 					if w == "true" || w == "false" {
